@@ -859,11 +859,35 @@ func zzC19DefForm(name string) (form slip.Object) {
 // defines something whose load form is the same list (fixed point). With
 // text != 0 the load form first goes through pp.Append (symbolic right
 // margin) and the reader, leaves concrete; otherwise leaves are symbolic.
-func VerifC19Defs(tmpl int, text int) {
+func VerifC19Defs(tmpl int, text int) { zzC19DefsRun(tmpl, text, false) }
+
+// VerifC19Redef: the same for a defun/defmacro that REPLACES an earlier
+// definition of the name with another lambda list, documentation string and
+// body: the load form (and with it the snapshot) is that of the current
+// definition, nothing of the first one.
+func VerifC19Redef(tmpl int, text int) { zzC19DefsRun(tmpl, text, true) }
+
+func zzC19DefsRun(tmpl int, text int, redefine bool) {
 	t := zzC19Defs[tmpl]
 	scope := slip.NewScope()
 	u := zzC19Sub{pre: "d", conc: text != 0}
 	code := slip.ReadString(t.src, scope)
+	if redefine {
+		first, _ := code[0].(slip.List)
+		head, _ := first[0].(slip.Symbol)
+		vrt.Assert(len(first) > 2 && (head == slip.Symbol("defun") || head == slip.Symbol("defmacro")), "case list: template is not a defun/defmacro")
+		old := slip.List{head, first[1], slip.List{slip.Symbol("zzold1"), slip.Symbol("zzold2"), slip.Symbol("zzold3"), slip.Symbol("zzold4")},
+			slip.String("documentation of the first definition"), slip.List{slip.Symbol("list"), slip.Symbol("zzold1"), slip.Symbol("zzold4")}}
+		pre := zzC19Run(func() slip.Object {
+			scope.Eval(old, 0)
+			if head == slip.Symbol("defun") {
+				// call it once so that whatever is cached per definition exists
+				scope.Eval(slip.List{first[1], slip.Fixnum(1), slip.Fixnum(2), slip.Fixnum(3), slip.Fixnum(4)}, 0)
+			}
+			return nil
+		})
+		vrt.Assert(pre.class == 0, "the first definition does not evaluate")
+	}
 	vrt.Carve("C19-slotdef-plural-options", tmpl == 8 || tmpl == 15)
 	vrt.Carve("C19-pp-doc-underscore-dropped", tmpl == 16 && text != 0)
 	vrt.Carve("C19-pp-doc-quote-not-escaped", tmpl == 17 && text != 0)
@@ -997,6 +1021,39 @@ func zzC19HasDefault(form slip.Object, v int64) bool {
 	return false
 }
 
+// zzC19HasFloatDefault: the same for a double-float default.
+func zzC19HasFloatDefault(form slip.Object, v float64) bool {
+	list, ok := form.(slip.List)
+	if !ok || len(list) < 4 {
+		return false
+	}
+	for _, pos := range []int{2, 3} {
+		vars, _ := list[pos].(slip.List)
+		for _, e := range vars {
+			el, isList := e.(slip.List)
+			if !isList || len(el) < 2 {
+				continue
+			}
+			if sym, isSym := el[0].(slip.Symbol); !isSym || string(sym) != "x" {
+				continue
+			}
+			if len(el) == 2 {
+				if f, isD := el[1].(slip.DoubleFloat); isD && float64(f) == v {
+					return true
+				}
+			}
+			for i := 1; i+1 < len(el); i++ {
+				if el[i] == slip.Symbol(":initform") {
+					if f, isD := el[i+1].(slip.DoubleFloat); isD && float64(f) == v {
+						return true
+					}
+				}
+			}
+		}
+	}
+	return false
+}
+
 // VerifC19DefsFamily: a chain top <- mid <- leaf where every level gives the
 // variable/slot x its own default. rel 0: leaf default == top default != mid
 // default; rel 1: three distinct defaults; rel 2: leaf default == mid default
@@ -1011,7 +1068,16 @@ func VerifC19DefsFamily(tmpl int, rel int, text int) {
 	leaf := t.family[len(t.family)-1]
 	var xv [3]int64
 	if text != 0 {
-		xv = [4][3]int64{{1, 2, 1}, {1, 2, 3}, {1, 2, 2}, {1, 2, 3}}[rel]
+		xv = [5][3]int64{{1, 2, 1}, {1, 2, 3}, {1, 2, 2}, {1, 2, 3}, {1, 2, 2}}[rel]
+		if rel == 4 && tmpl == 2 {
+			xv = [3]int64{2, 1, 2}
+		}
+	} else if rel == 4 {
+		// floats are concrete in the engine
+		xv = [3]int64{1, 2, 2}
+		if tmpl == 2 {
+			xv = [3]int64{2, 1, 2}
+		}
 	} else {
 		for i := 0; i < 3; i++ {
 			xv[i] = vrt.Int64("fx" + strconv.Itoa(i))
@@ -1027,6 +1093,13 @@ func VerifC19DefsFamily(tmpl int, rel int, text int) {
 		}
 	}
 	u := zzC19Sub{pre: "f", conc: text != 0, xs: []slip.Object{slip.Fixnum(xv[0]), slip.Fixnum(xv[1]), slip.Fixnum(xv[2])}}
+	if rel == 4 {
+		// relation 4: the leaf's default has the VALUE of the default it would
+		// inherit but another type (double-float 2.0 over fixnum 2): = and equalp
+		// hold, the load form still has to state it and a reloaded instance
+		// has to get a double-float
+		u.xs[2] = slip.DoubleFloat(float64(xv[2]))
+	}
 	if rel == 3 { // relation 3: the defaults are the forms (list X0), (list X1), (list X2)
 		for i := range u.xs {
 			u.xs[i] = slip.List{slip.Symbol("list"), u.xs[i]}
@@ -1061,7 +1134,10 @@ func VerifC19DefsFamily(tmpl int, rel int, text int) {
 	if tmpl == 2 {
 		nearest = xv[0]
 	}
-	if xv[2] != nearest && rel != 3 {
+	if rel == 4 {
+		vrt.Assert(zzC19HasFloatDefault(forms[len(forms)-1], float64(xv[2])), "the load form of the leaf lost the default the leaf declares (same value as the inherited one, other type)")
+	}
+	if xv[2] != nearest && rel != 3 && rel != 4 {
 		vrt.Assert(zzC19HasDefault(forms[len(forms)-1], xv[2]), "the load form of the leaf lost the default the leaf declares")
 	}
 	if text != 0 {
@@ -1108,6 +1184,11 @@ func VerifC19DefsFamily(tmpl int, rel int, text int) {
 				got = l[0] // relation 3: the value of (list X) is (X)
 			} else if rel == 3 {
 				got = nil
+			}
+			if rel == 4 && lv == 2 {
+				d, isD := got.(slip.DoubleFloat)
+				vrt.Assert(isD && float64(d) == float64(want), "a fresh instance does not have the double-float default its flavor/class declares for x")
+				continue
 			}
 			f, isFix := got.(slip.Fixnum)
 			vrt.Assert(isFix && int64(f) == want, "a fresh instance does not have the default its flavor/class declares for x")
